@@ -142,6 +142,14 @@ CHECKS = {
         "note": TRUST + " Calls into the bundled std library are replaced in the model program by the values of spec/GoStrings.tla.",
         "technique": "TLA+ linking function (TshModules) + static check + trace validation of real multi-file runs against the TLA+ machine on the linked program",
     },
+    "C10": {
+        "text": "spec/Rename.tla applies a consistent renaming to the abstract syntax; TLC enumerates spec/FamC10.tla: 13 base programs covering every name-allocating construct x each user "
+                "identifier x a catalog of 60 variable / 23 function names the back-ends reserve or inherit from the shell, case-only variants, rotations, and names composed of other names "
+                "of the program with '_'. For every renamed program the recorded Bash run must be the behaviour TshDyn prescribes, or the transpiler must refuse; the specification's own "
+                "alpha invariance (expectation of renaming = expectation of base) is checked on every case. Captures on the unchanged tree are known findings K13-K15.",
+        "note": TRUST + " Only the Bash target is executed (Batch case folding is not exercised).",
+        "technique": "TLA+ renaming function (Rename) over TLC-enumerated base x identifier x reserved-name families + trace validation of real runs",
+    },
 }
 
 NOT_APPLICABLE = {}
